@@ -22,6 +22,12 @@
                                          (a list is `none` when the flag is not given; D = 403 by deny-domains,
                                           I = CONNECT intercepted, X = direct, U = through the upstream proxy)
 
+    siteoutcome <mode> <aliases> <deny> <direct> <mitm> <connect bits> <authorities>
+                                       → ok <one of L D I X U per authority> | no-include | panic | unsupported
+                                         (Model/C17Local.lean: the lists composed with `--proxy-localhost=<mode>`,
+                                          mode = deny | allow | direct; aliases = hex list of the hosts-file names of
+                                          loopback addresses; L = 403 by the localhost refusal)
+
   concurrent use (Model/C17Conc.lean); a schedule is three parallel lists, one entry per call:
 
     conc <rules> <hosts> <callers> <via-inverse bits> <host indices>
@@ -31,6 +37,7 @@
 import FwdVerif.Model.C17
 import FwdVerif.Model.C17Subject
 import FwdVerif.Model.C17Conc
+import FwdVerif.Model.C17Local
 
 namespace FwdVerif
 namespace C17
@@ -190,6 +197,33 @@ def handleSubject : List String → Option String
     | _, _, _, _, _ => some "bad-op"
   | _ => none
 
+def siteOutcomeCode : SiteOutcome → Char
+  | .localRefused => 'L'
+  | .lists o => outcomeCode o
+
+def zipSiteOutcomes (mode : LocalMode) (loc : Bytes → Bool) (L : Lists) : List Bool → List Bytes → List Char
+  | c :: cs, a :: as => siteOutcomeCode (siteOutcome mode loc L c a) :: zipSiteOutcomes mode loc L cs as
+  | _, _ => []
+
+def decodeMode (s : String) : Option LocalMode :=
+  if s = "deny" then some .deny else if s = "allow" then some .allow else if s = "direct" then some .direct else none
+
+def handleSiteOutcome : List String → Option String
+  | ["siteoutcome", mode, aliases, deny, direct, mitm, conn, auths] =>
+    match decodeMode mode, bytesList aliases, decodeOptRules deny, decodeOptRules direct, decodeOptRules mitm,
+        unbits conn, bytesList auths with
+    | some md, some al, some d, some x, some i, some cs, some as =>
+      if cs.length != as.length then some "bad-op"
+      else if !as.all isAscii then some "unsupported"
+      else match buildOpt d, buildOpt x, buildOpt i with
+        | .ok md', .ok mx, .ok mi =>
+          some s!"ok {String.ofList (zipSiteOutcomes md (localhostClass al) { deny := md', direct := mx, mitm := mi } cs as)}"
+        | .error e, _, _ => some e
+        | _, .error e, _ => some e
+        | _, _, .error e => some e
+    | _, _, _, _, _, _, _ => some "bad-op"
+  | _ => none
+
 def mkSchedule (hs : List Bytes) : List Nat → List Bool → List Nat → Option Schedule
   | c :: cs, i :: is, h :: ix =>
     match hs[h]?, mkSchedule hs cs is ix with
@@ -233,6 +267,9 @@ def handle : List String → String
     match handleSubject req with
     | some a => a
     | none =>
+      match handleSiteOutcome req with
+      | some a => a
+      | none =>
       match handleConc req with
       | some a => a
       | none => handle1 req
